@@ -50,7 +50,7 @@ fn strategy(tier: Tier) -> BoxedStrategy<Case> {
                                 steps.push(Step::Peer(PeerOp::Ack { back: 0, wnd: if window_limited { 8 * mss } else { 64 << 20 }, sack: None }));
                             }
                             steps.push(Step::Adv(20));
-                            Case { sp: SpCase { sock: sock.clone(), incoming, peer_isn, conn_id, peer_wnd, complete_handshake: true, key, steps, linger_ms: 50, discipline: true }, window_limited }
+                            Case { sp: SpCase { sock: sock.clone(), incoming, peer_isn, conn_id, peer_wnd, complete_handshake: true, key, steps, linger_ms: 50, discipline: true, bystander: None }, window_limited }
                         })
                 })
         })
